@@ -261,3 +261,103 @@ func (r *runner) scRestoreSide() {
 	}
 	r.opClose()
 }
+
+// restoreAndCompare restores the latest state into verify/<name> and compares the user table with the source.
+func (r *runner) restoreAndCompare(stage, name string) *stageError {
+	path := r.verifyPath(name)
+	if err := r.opRestore("restore", path, 0); err != nil {
+		return stageErr(stage, fmt.Errorf("restore: %w", err))
+	}
+	conn, err := sql.Open("sqlite", path)
+	if err != nil {
+		return stageErr(stage, err)
+	}
+	defer conn.Close()
+	conn.SetMaxOpenConns(1)
+	if err := integrityCheck(conn); err != nil {
+		return stageErr(stage, fmt.Errorf("restored: %w", err))
+	}
+	want, err := tableRows(r.app)
+	if err != nil {
+		return stageErr(stage, fmt.Errorf("source rows: %w", err))
+	}
+	got, err := tableRows(conn)
+	if err != nil {
+		return stageErr(stage, fmt.Errorf("restored rows: %w", err))
+	}
+	if len(want) != len(got) {
+		return stageErr(stage, fmt.Errorf("row count: source %d, restored %d", len(want), len(got)))
+	}
+	for i := range want {
+		if want[i] != got[i] {
+			return stageErr(stage, fmt.Errorf("row %d differs: source %s, restored %s", i, short(want[i]), short(got[i])))
+		}
+	}
+	return nil
+}
+
+// snapshotFirst: right after the restart and BEFORE any new application write, run n idle syncs
+// (Sync + Replica.Sync) and then DB.Snapshot; the replica must still restore to the source, i.e. to what
+// was acknowledged before the kill plus whatever the application committed while litestream was down.
+func (r *runner) snapshotFirst(idle int) *stageError {
+	for i := 0; i < idle; i++ {
+		r.opSync()
+		if lastErr != "" {
+			return stageErr("idle-sync", errors.New(lastErr))
+		}
+		r.opUpload()
+		if lastErr != "" {
+			return stageErr("idle-sync", errors.New(lastErr))
+		}
+	}
+	r.opSnapshot()
+	if lastErr != "" {
+		if idle == 0 && strings.Contains(lastErr, "db not ready") {
+			// Snapshot before the first Sync of a fresh DB object is refused loudly (not initialised yet):
+			// nothing was published, nothing to compare.
+			return nil
+		}
+		return stageErr("snapshot-after-restart", errors.New(lastErr))
+	}
+	return r.restoreAndCompare("compare-after-snapshot", "snap.db")
+}
+
+// scRepublish: WriteLTXFile onto names that already exist in the file replica: an upload retry of an L0
+// file that is already there, DB.Snapshot twice at the same position, a snapshot by a restarted idle
+// process, and a compaction whose output name exists.
+func (r *runner) scRepublish() {
+	if !r.opOpen() {
+		return
+	}
+	r.syncUploadRounds(r.rounds)
+	// upload retry: the newest L0 file is written to the replica a second time (as after a failure that
+	// happened once the first attempt had already renamed)
+	_, _ = r.op("reupload", func() (uint64, error) {
+		minTX, maxTX, err := r.db.MaxLTX()
+		if err != nil {
+			return 0, err
+		}
+		f, err := os.Open(r.db.LTXPath(0, minTX, maxTX))
+		if err != nil {
+			return 0, err
+		}
+		defer f.Close()
+		_, err = r.db.Replica.Client.WriteLTXFile(r.ctx, 0, minTX, maxTX, f)
+		return uint64(maxTX), err
+	})
+	r.opSnapshot()
+	r.opSnapshot() // same position: same name 1..N at the snapshot level
+	r.opCompact(1)
+	r.opCompact(1) // nothing new: either a no-op/failure or the same output name again
+	r.opClose()
+	r.newLS()
+	if !r.opOpen() {
+		return
+	}
+	r.opSync()
+	r.opSnapshot() // restarted, idle application: the snapshot name exists already
+	r.insert()
+	r.opSyncAndWait()
+	r.opSnapshot()
+	r.opClose()
+}
